@@ -252,7 +252,7 @@ func (r *Result) header() {
 		}
 	}
 	r.add("K-HEADER/marker", "before-package", u.File.Package, ok, "something other than line comments precedes the package clause")
-	r.add("K-HEADER/package", "name", u.File.Name.Pos(), u.File.Name.Name == tmpl.PkgToken, "package clause names %q, want the requested package name", u.File.Name.Name)
+	r.add("K-HEADER/package", "name", u.File.Name.Pos(), u.File.Name.Name == u.Model.PkgName(), "package clause names %q, want the requested package name", u.File.Name.Name)
 }
 
 // importsRule: C11 / C10 — import specs.
